@@ -265,8 +265,28 @@ func mergedRanges(tabs ...*unicode.RangeTable) []rg {
 	return merged
 }
 
-var letterRanges = mergedRanges(unicode.Letter)
-var markRanges = mergedRanges(unicode.Mark)
+// Unicode class predicates handled by lazy refinement: exact-name in terms -> table
+type uniPred struct {
+	x, u   string // interpreted name used in terms, uninterpreted name used in queries
+	ranges []rg
+}
+
+var uniPreds = []uniPred{
+	{"isLetterX", "isLetterU", mergedRanges(unicode.Letter)},
+	{"isMarkX", "isMarkU", mergedRanges(unicode.Mark)},
+	{"isDigitX", "isDigitU", mergedRanges(unicode.Digit)},
+	{"isNumberX", "isNumberU", mergedRanges(unicode.Number)},
+	{"isSpaceX", "isSpaceU", mergedRanges(unicode.White_Space)},
+	{"isUpperX", "isUpperU", mergedRanges(unicode.Upper)},
+	{"isLowerX", "isLowerU", mergedRanges(unicode.Lower)},
+	{"isPunctX", "isPunctU", mergedRanges(unicode.Punct)},
+}
+
+func init() {
+	for _, p := range uniPreds {
+		ufDecls[p.u] = "(declare-fun " + p.u + " ((_ BitVec 32)) Bool)"
+	}
+}
 
 // constInterval returns the maximal interval around v on which membership is constant.
 func constInterval(rs []rg, v uint32) (uint32, uint32, bool) {
@@ -304,10 +324,7 @@ func rangePred(name string, tabs ...*unicode.RangeTable) string {
 
 func unicodeDef(name string) string {
 	unicodeDefsOnce.Do(func() {
-		unicodeDefs = map[string]string{
-			"isLetterX": rangePred("isLetterX", unicode.Letter),
-			"isMarkX":   rangePred("isMarkX", unicode.Mark),
-		}
+		unicodeDefs = map[string]string{}
 	})
 	return unicodeDefs[name]
 }
@@ -419,22 +436,19 @@ func (s *Solver) drop(kind string) {
 	}
 }
 
-// unicodeApps extracts the distinct argument terms of isLetterX / isMarkX applications.
-func unicodeApps(text string) (letters, marks []string) {
-	seenL, seenM := map[string]bool{}, map[string]bool{}
-	for _, pr := range []struct {
-		name string
-		seen map[string]bool
-		out  *[]string
-	}{{"(isLetterX ", seenL, &letters}, {"(isMarkX ", seenM, &marks}} {
+// unicodeApps extracts, per class predicate, the distinct argument terms of its applications.
+func unicodeApps(text string) [][]string {
+	out := make([][]string, len(uniPreds))
+	for pi, pr := range uniPreds {
+		seen := map[string]bool{}
+		name := "(" + pr.x + " "
 		from := 0
 		for {
-			k := strings.Index(text[from:], pr.name)
+			k := strings.Index(text[from:], name)
 			if k < 0 {
 				break
 			}
-			a := from + k + len(pr.name)
-			// balanced argument
+			a := from + k + len(name)
 			depth, b := 0, a
 			for b < len(text) {
 				c := text[b]
@@ -449,14 +463,14 @@ func unicodeApps(text string) (letters, marks []string) {
 				b++
 			}
 			arg := text[a:b]
-			if !pr.seen[arg] {
-				pr.seen[arg] = true
-				*pr.out = append(*pr.out, arg)
+			if !seen[arg] {
+				seen[arg] = true
+				out[pi] = append(out[pi], arg)
 			}
 			from = a
 		}
 	}
-	return
+	return out
 }
 
 // parsePairs reads "((k v) (k v) …)" where keys may be compound terms.
@@ -490,18 +504,17 @@ func (s *Solver) runOn(kind string, asserts []Term, syms []string, timeout time.
 		return "error: " + err.Error(), nil
 	}
 	script := buildScript(asserts, int(timeout/time.Millisecond), p.kind, syms...)
-	letters, marks := unicodeApps(script)
-	cegar := len(letters)+len(marks) > 0
+	apps := unicodeApps(script)
+	cegar := false
+	decl := ""
+	for pi, pr := range uniPreds {
+		if len(apps[pi]) > 0 {
+			cegar = true
+			script = strings.ReplaceAll(script, "("+pr.x+" ", "("+pr.u+" ")
+			decl += ufDecls[pr.u] + "\n"
+		}
+	}
 	if cegar {
-		script = strings.ReplaceAll(script, "(isLetterX ", "(isLetterU ")
-		script = strings.ReplaceAll(script, "(isMarkX ", "(isMarkU ")
-		decl := ""
-		if len(letters) > 0 {
-			decl += ufDecls["isLetterU"] + "\n"
-		}
-		if len(marks) > 0 {
-			decl += ufDecls["isMarkU"] + "\n"
-		}
 		// declarations go right after the prelude: before the first declare-const / assert
 		k := strings.Index(script, "(declare-const")
 		if k2 := strings.Index(script, "(assert"); k < 0 || (k2 >= 0 && k2 < k) {
@@ -559,11 +572,12 @@ func (s *Solver) runOn(kind string, asserts []Term, syms []string, timeout time.
 			return "unknown", nil
 		}
 		var q []string
-		for _, a := range letters {
-			q = append(q, a, "(isLetterU "+a+")")
-		}
-		for _, a := range marks {
-			q = append(q, a, "(isMarkU "+a+")")
+		var qp []int
+		for pi, pr := range uniPreds {
+			for _, a := range apps[pi] {
+				q = append(q, a, "("+pr.u+" "+a+")")
+				qp = append(qp, pi)
+			}
 		}
 		lines, err := p.exchange("(get-value ("+strings.Join(q, " ")+"))", 20*time.Second)
 		if err != nil {
@@ -582,21 +596,17 @@ func (s *Solver) runOn(kind string, asserts []Term, syms []string, timeout time.
 		}
 		var refine strings.Builder
 		for i := 0; i < len(pairs); i += 2 {
-			isLetter := i/2 < len(letters)
+			pr := uniPreds[qp[i/2]]
 			arg := q[i]
 			v, _ := bvBits(pairs[i][1])
 			got := strings.TrimSpace(pairs[i+1][1]) == "true"
-			rs, uf := markRanges, "isMarkU"
-			if isLetter {
-				rs, uf = letterRanges, "isLetterU"
-			}
-			lo, hi, want := constInterval(rs, uint32(v))
+			lo, hi, want := constInterval(pr.ranges, uint32(v))
 			if got != want {
 				lit := "false"
 				if want {
 					lit = "true"
 				}
-				fmt.Fprintf(&refine, "(assert (=> (and (bvuge %s #x%08x) (bvule %s #x%08x)) (= (%s %s) %s)))\n", arg, lo, arg, hi, uf, arg, lit)
+				fmt.Fprintf(&refine, "(assert (=> (and (bvuge %s #x%08x) (bvule %s #x%08x)) (= (%s %s) %s)))\n", arg, lo, arg, hi, pr.u, arg, lit)
 			}
 		}
 		if refine.Len() == 0 {
